@@ -100,6 +100,11 @@ def _worker_init(tier, seed):
     TIER, SEED = tier, seed
     sys.stdout = _Sink()     # frappy prints tracebacks to stdout; only the parent may print verdict lines
     sys.stderr = _Sink()
+    dump = os.environ.get('VERIF_DUMP_DIR')      # debugging aid: kill -USR1 <worker> writes all thread stacks there
+    if dump:
+        import faulthandler
+        import signal
+        faulthandler.register(signal.SIGUSR1, file=open(os.path.join(dump, f'stack-{os.getpid()}.txt'), 'w'), all_threads=True)
 
 
 def _worker_call(args):
